@@ -112,6 +112,20 @@ CHECKS['C15'] = dict(
    note='PARTIAL (category other): unbalanced braces, open strings, missing braces and colons are detected by the LALR parser, which is not modelled; they are decided by the corruption sweep on the real parser. The command line keeps going after a syntax error and also prints the CSS of the remaining rules; the property only asks for the diagnostic there. Trusted: Coq kernel; lexer and evaluator hand models; the line oracle 1 + count of LF before the offending token.',
    design='3/C15')
 
+CHECKS['C18'] = dict(
+   category='other',
+   technique='Coq proof on the lexer / evaluator / formatter models (a string is one token whatever its body, evaluates to itself, is printed verbatim under every option vector; @{name} = the value of @name = what a plain use gives; selector substitution) + byte-exact model correspondence + reference semantics + verbatim and inertness checks on the real output',
+   text='Theorems C18_string_is_one_token (value position and inside parentheses), C18_string_evaluates_to_itself, C18_string_printed_verbatim (all fills), C18_interpolation_value, C18_same_value_everywhere, C18_selector_interpolation, C18_selector_interpolation_unbound. Correspondence: generated sheets with random string bodies over all printable characters except the quote, backslash and @ (both quote kinds; braces, semicolons, comment marks, commas, repeated blanks, url(..) look-alikes), interpolated strings and interpolated class selectors over 1-3 identifier/number-valued variables that are also used plainly; every case vs the evaluator model (bytes) and vs Spec/Sem.v; plus on the real output: replacing every string body by a placeholder changes nothing but the placeholder.',
+   note='PARTIAL (category other): the parser step between the lexer token and the declaration value is not modelled (decided by the byte-exact correspondence). Interpolation inside mixin bodies with parameters in selectors is outside the model (selectors are resolved at call time there). String-valued variables are outside the property quantifier (the implementation strips their quotes in place on interpolation). Trusted: Coq kernel; hand models; harness/gens/sheet.py tree(); harness/readcss.py.',
+   design='3/C18')
+
+CHECKS['C14'] = dict(
+   category='other',
+   technique='Coq proof on a model of p_statement_import (splice position, an import = the inlined file looked up relative to the importing file, missing file and depth limit are errors, other imports kept) + correspondence on random file trees on disk: real compiler on the tree vs real compiler on the pasted text vs import+evaluator model',
+   text='Theorems C14_position, C14_import_equals_paste, C14_missing_reported, C14_too_deep_reported, C14_other_imports_kept (and computed examples of the path functions). Correspondence: generated programs (variables incl. a name defined twice across the cut, interpolation in selectors and strings, media, at-rules, non-LESS import statements) cut at top-level statement boundaries into random trees of files and sub-directories (nested cuts to depth 4, spellings with/without extension, ./ ../ sub/../x, both quotes, url()); the CSS of the tree must equal the CSS of the pasted text byte for byte under the same options, and equal the model; one case in four has an imported file removed and must fail.',
+   note='PARTIAL (category other): the theorems are about the model of the import statement; the shared scope and the splice in the real parser are decided by the correspondence. Imports inside blocks and import cycles (C20) are outside this check. Trusted: Coq kernel; hand models (Import.v, Eval.v); the temporary directory tree being the only import path.',
+   design='3/C14')
+
 NOT_YET = {}
 
 
